@@ -111,7 +111,13 @@ void runC16() {
     int stealMult = r.chance(0.5) ? 1 : 4;
     bool heavy = r.chance(0.6);
     int shape = static_cast<int>(idx % 4); // 0 flat, 1 binary D&C, 2 random arity tree, 3 flat under load
+    // 4: left spine deeper than the inline depth cap (32), recursing through the NON-last functor,
+    // on a task set held over its own load threshold: every level runs its first functor inline
+    // until the cap forces it to be queued
+    if (idx % 9 == 8) shape = 4;
+    if (shape == 4 && poolN == 0) poolN = static_cast<int>(r.range(1, 4));
     bool fromPoolTask = poolN > 0 && r.chance(0.3);
+    if (shape == 4) fromPoolTask = false;
     double perturb = r.chance(0.3) ? 0.05 : 0.0;
     Ctx c;
     int maxDepth = 1, lo = 1, hi = 8;
@@ -134,8 +140,19 @@ void runC16() {
       leafProb = 0.15;
     }
     long budget = leaves;
-    genTree(r, c, 0, maxDepth, budget, lo, hi, leafProb);
-    const char* shapes[] = {"flat", "binary", "tree", "flat-loaded"};
+    if (shape == 4) {
+      maxDepth = static_cast<int>(r.range(40, 120));
+      // node 2k: internal (kids: 2k+2 internal-or-final-leaf first, 2k+1 leaf last)
+      for (int d = 0; d < maxDepth; ++d) {
+        c.nodes.emplace_back(); // internal 2d
+        c.nodes.emplace_back(); // its leaf 2d+1
+      }
+      c.nodes.emplace_back(); // final leaf 2*maxDepth
+      for (int d = 0; d < maxDepth; ++d) c.nodes[static_cast<size_t>(2 * d)].kids = {2 * d + 2, 2 * d + 1};
+    } else {
+      genTree(r, c, 0, maxDepth, budget, lo, hi, leafProb);
+    }
+    const char* shapes[] = {"flat", "binary", "tree", "flat-loaded", "spine-loaded"};
     int arity0 = static_cast<int>(c.nodes[0].kids.size());
     J spec = J().kv("shape", shapes[shape]).kv("pool", poolN).kv("mult", mult).kv("stealMult", stealMult).kv("cost", heavy ? "heavy" : "light").kv("fromPoolTask", fromPoolTask)
                  .kv("nodes", static_cast<long>(c.nodes.size())).kv("maxDepth", maxDepth).kv("rootArity", arity0).kv("perturb", perturb);
@@ -179,6 +196,14 @@ void runC16() {
       {
         dispenso::ConcurrentTaskSet cts(pool, heavy ? dispenso::TaskCost::kHeavy : dispenso::TaskCost::kLightweight, stealMult);
         c.cts = &cts;
+        if (shape == 4) {
+          // hold every worker, then park no-op tasks in the set under test so that its outstanding
+          // count stays above its inline threshold while the spine runs on this thread
+          for (int i = 0; i < poolN; ++i) aux.schedule([]() { g_ngates.body(); }, dispenso::ForceQueuingTag());
+          g_ngates.waitArrived(poolN);
+          int k = stealMult * poolN + poolN + 3;
+          for (int i = 0; i < k; ++i) cts.schedule([]() { vrt::progress(); }, dispenso::ForceQueuingTag());
+        }
         if (fromPoolTask) {
           // the whole algorithm, including its single wait(), runs inside a pool task
           static std::atomic<int> ret{0};
@@ -234,7 +259,8 @@ void runC16() {
     if (poolN == 0) cls.push_back("pool0");
     if (fromPoolTask) cls.push_back("from-pool-task");
     if (c.nonLastInline.load() > 0) cls.push_back("inline-fallback");
-    if (maxDepth >= 12) cls.push_back("depth12");
+    if (maxDepth >= 12 && shape != 4) cls.push_back("depth12");
+    if (shape == 4) cls.push_back("spine:deeper-than-inline-cap");
     cls.push_back(heavy ? "cost:heavy" : "cost:light");
     bool nt = c.callsMade.load() >= 1 && nn >= 3;
     vrt::caseEnd(J().kv("nodes", static_cast<long>(nn)).kv("calls", c.callsMade.load()).kv("leaves", c.leavesRun.load()).kv("nonLastInline", c.nonLastInline.load()), nt ? spec.str() + "#" + std::to_string(idx) : "", cls);
